@@ -123,15 +123,6 @@ class Domain(
         x.__repr__() <==> repr(x)
 
         """
-        shape = sorted(
-            [
-                domain_axis.get_size(None)
-                for domain_axis in self.domain_axes(todict=True).values()
-            ]
-        )
-        shape = str(shape)
-        shape = shape[1:-1]
-
         return f"<{self.__class__.__name__}: {self._one_line_description()}>"
 
     def __str__(self):
